@@ -166,15 +166,16 @@ CHECKS = {
         'Trusted: Coq kernel + vm_compute; generator semantics modelled as explicit states; footprint digest is diagnostic only.',
         '§4 C12'),
     'C13': (
-        'Coq proof (for every decision oracle: the clustering loop keeps every leaf, in-order leaves are a rearrangement of the input, positions are handed out once) + per-run vm_compute correspondence that replays the decisions of each real argsort run through the model',
-        'Machine-checked theorems for EVERY decision oracle (= every similarity measure, every tie-break of argmax, every epsilon outcome) and every non-empty '
+        'Coq proof (for every decision oracle AND for every stream of similarity values through the modelled loop - similarity matrix, first-position argmax, epsilon test, pops: the clustering keeps every leaf, in-order leaves are a rearrangement of the input, positions are handed out once) + per-run vm_compute correspondence that runs the similarity values each real argsort run obtained from its measure through the model',
+        'Machine-checked theorems for EVERY decision oracle and for EVERY stream of similarity values (= every similarity measure, ties, all-zero, negative values, any epsilon) and every non-empty '
         'id sequence, repeats allowed: the clustering loop ends with one tree whose tagged leaves in order are a rearrangement of the input ids; '
         '_find_indices then returns each position 0..n-1 exactly once and indexing the input with the result yields exactly that order; a single item '
         'gives (0,); the empty sequence raises. Ids enter only through equality, so TermIds and identified objects agree, and the model is a function, so '
-        'repeated calls agree. Correspondence: edge-distance, IC (injective/zero/tied/negative) and a scripted arbitrary measure on random DAGs; the '
-        'decisions of the real loop are recorded and replayed - the index tuple must be identical - and the property predicate is evaluated on every output.',
-        'Trusted: Coq kernel + vm_compute; numpy argmax and the similarity measures are not modelled (quantified over); argmax is wrapped from the harness to '
-        'record decisions. Repeated ids gave repeated positions: genuine defect fixed in /repo (fix: 9d9fa05).',
+        'repeated calls agree. Correspondence: edge-distance, IC (injective/zero/tied/negative) and a scripted arbitrary measure on random DAGs, on fresh and on used graphs, with follow-up calls on the same sorter '
+        '(fresh lists and one list edited in place); the values returned by the measure are recorded call by call (as ranks) and run through the model\'s own argmax / epsilon logic - the index '
+        'tuple must be identical; a different but valid order is reported as a broken correspondence (no-failing-input-found), the property predicate (permutation etc.) is evaluated on every output.',
+        'Trusted: Coq kernel + vm_compute; the similarity measures are not modelled (quantified over); the measure is wrapped from the harness to '
+        'record its values (numpy.argmax is additionally intercepted where possible). Repeated ids gave repeated positions: genuine defect fixed in /repo (fix: 9d9fa05).',
         '§4 C13'),
     'C15': (
         'Coq proof (refinement of the nested-dict container to a map on unordered pairs by induction over histories; structural invariant for items/len; metadata codec; CSV row codec = writer + reader state machine; FILE-level to_csv / from_csv text model with round-trip theorem through the universal-newline layer; rebuild theorem; end-to-end container round trip) + per-run vm_compute correspondence (histories, codecs, whole files well-formed and malformed) and an executed CSV round trip',
